@@ -88,13 +88,14 @@ Definition gu_slot (t : nat) (c : Z) : slot := (t, c).
 Definition gb_slot (dropped : list slot) (t : nat) (c : Z) : option slot :=
   if existsb (fun s : slot => Nat.eqb (fst s) t && Z.eqb (snd s) c) dropped then None else Some (1000 + t, c).
 Definition ref_slots (nref : nat) : list slot := map (fun i => (2000 + i, 0%Z)) (seq 0 nref).
-(* circuit = reference_state + vsqs_circuit.  offset_fixed = false: update_var_params indexes
-   circuit._variational_gates from 0 (as written); true: from the number of variational gates of the reference *)
+(* circuit = reference_state + vsqs_circuit.  offset_fixed = false: update_var_params as first written (no size
+   test, indexes circuit._variational_gates from 0); true: as repaired (size test, Python-int offset
+   n_ref = len(variational gates) - n_var_gates*(intervals-1), negative indices wrap) *)
 Definition run_vsqs (c : vsqs_cfg Z) (dropped : list slot) (nref : nat) (offset_fixed : bool) (nth0 : nat) (nth1 : nat) : string :=
   let v0 := vsqs_build nat Z slot (gb_slot dropped) c (seq 0 nth0) 0 in
   let pre := ref_slots nref in
   let r := if offset_fixed
-           then match vsqs_update nat Z slot gu_slot c v0 (seq 0 nth1) with Ok v => Ok (pre ++ v)%list | Err e => Err e end
+           then vsqs_update_fixed nat Z slot gu_slot c (pre ++ v0)%list (seq 0 nth1)
            else vsqs_update nat Z slot gu_slot c (pre ++ v0)%list (seq 0 nth1) in
   "built=" ++ show_nat (length (pre ++ v0)%list) ++ "|n_var_gates=" ++ show_nat (n_var_gates Z c)
   ++ "|n_var_params=" ++ show_nat (vsqs_n_var_params Z c)
